@@ -29,15 +29,15 @@ func init() {
 
 // ctxConn blocks in Read until data or a deadline; records SetDeadline calls.
 type ctxConn struct {
-	mu       sync.Mutex
-	cond     *sync.Cond
-	data     []byte
-	deadline time.Time // read deadline
+	mu        sync.Mutex
+	cond      *sync.Cond
+	data      []byte
+	deadline  time.Time // read deadline
 	wdeadline time.Time // write deadline (SetDeadline sets both, as on a real net.Conn)
-	events   []string
-	closed   bool
-	onDrain  func() // called (once, inside Read) when the supplied bytes have all been handed out
-	blockW   bool   // Write blocks until a deadline passes or the conn is closed (like net.Pipe with a stalled peer)
+	events    []string
+	closed    bool
+	onDrain   func() // called (once, inside Read) when the supplied bytes have all been handed out
+	blockW    bool   // Write blocks until a deadline passes or the conn is closed (like net.Pipe with a stalled peer)
 }
 
 func newCtxConn() *ctxConn {
